@@ -238,14 +238,10 @@ func (dw *DiskWriter) requestAsyncFileData(p, dest string, fi os.FileInfo, st *t
 		}); err != nil {
 			return err
 		}
-		if m := os.FileMode(st.Mode); m&(os.ModeSetuid|os.ModeSetgid) != 0 {
-			// writing the content as an unprivileged user makes the kernel
-			// drop setuid/setgid: apply the mode again
-			if err := os.Chmod(dest, m); err != nil {
-				return errors.WithStack(err)
-			}
-		}
-		return chtimes(dest, st.ModTime) // TODO: parent dirs
+		// Writing the content changes the mtime and makes the kernel drop
+		// file capabilities (security.capability) and, for an unprivileged
+		// user, setuid/setgid: apply the metadata again.
+		return rewriteMetadata(dest, st) // TODO: parent dirs
 	})
 }
 
